@@ -2,6 +2,7 @@
 from __future__ import annotations
 
 import ast
+import re
 
 from oracles import tables as O
 from sa.absint import AObj, ClassRef, EnumV, FlagV, Interp, Opaque, Sym, Tok, to_text
@@ -93,6 +94,14 @@ def r07_2(ctx):
             for o in outs:
                 if o.kind == "raise":
                     obs.add("RAISE")
+                    continue
+                if not (isinstance(o.value, AObj) and "args" in o.value.fields):
+                    # not a freshly built register: something stored is handed out - under which name was it looked up?
+                    m = re.search(r"\[([^\[\]]+)\]>*$", to_text(o.value))
+                    final_name = "R" + SAMPLE_LETTER[acc] + ("_new" if is_new else "")
+                    if m and m.group(1) == final_name:
+                        continue  # the stored operand of exactly this spelling (name and .new suffix): same register
+                    obs.add(("a stored operand of another spelling", to_text(o.value)[:60], f"wanted {final_name}"))
                     continue
                 a, k = o.value.fields["args"], o.value.fields["kwargs"]
                 acc_v = k.get("access", a[1] if len(a) > 1 else None)
